@@ -104,6 +104,13 @@ theorem read_four (line : Str) (w0 : Str) (c : Char) (ds : Str)
 
 /-! ### round trip -/
 
+/-- the line `_write_zone` writes, whatever the shape of the translated loop body (the proof is by normalisation, so
+an equivalent rewrite of the source - a label built once and used twice, say - still satisfies it) -/
+theorem zone_line_eq (ch : Str) (n : Int) :
+    Gen.zone_line ch n
+      = .ok (['z', 'o', 'n', 'e', ' '] ++ ch ++ intStr n ++ ['-'] ++ ch ++ intStr n ++ ['\n']) := by
+  simp [Gen.zone_line, Gen.zone_line_of, bind, Except.bind, pure, Except.pure]
+
 /-- `read_zone` reads back the chain and residue number `_write_zone` wrote, for every one-character
 chain identifier other than `-` and blanks, and every integer residue number. -/
 theorem read_write_zone (c : Char) (n : Int) (hdash : c ≠ '-') (hsp : Py.isSpace c = false) :
@@ -116,8 +123,8 @@ theorem read_write_zone (c : Char) (n : Int) (hdash : c ≠ '-') (hsp : Py.isSpa
     intro tok h1 h2
     exact splitWs_two _ _ _ _ (by decide) h1 (by simp) h2 (by decide) (by decide)
   have hsd := allDigits_no_space _ hds
-  unfold Gen.zone_line
-  simp only [bind, Except.bind, pure, Except.pure]
+  rw [zone_line_eq]
+  simp only [bind, Except.bind]
   by_cases hn : n < 0
   · have hi : intStr n = '-' :: decDigits n.natAbs := by simp [intStr, hn]
     rw [hi]
